@@ -84,7 +84,11 @@ def main(argv):
         jobs = int(argv[i + 1])
         del argv[i:i + 2]
     if argv[1:2] == ["--patch"]:
-        ms = [{"id": os.path.basename(argv[2]), "patch": os.path.abspath(argv[2]), "property": p} for p in argv[3:]]
+        props = argv[3:]
+        if props == ["ALL"] or not props:
+            props = [c["property_id"] for c in json.load(open(os.path.join(VERIF, "MANIFEST.json")))["checks"]]
+        ms = [{"id": "%s@%s" % (os.path.basename(os.path.dirname(os.path.abspath(argv[2]))), p),
+               "patch": os.path.abspath(argv[2]), "property": p} for p in props]
     else:
         prop = argv[1] if len(argv) > 1 and argv[1] != "all" else None
         ms = load_mutants(prop)
